@@ -23,10 +23,10 @@ import numpy as np  # pylint: disable=g-import-not-at-top
 KINDS = ["FC", "EW2", "EW1", "SAMEIN0", "SAMEIN1", "CONCAT", "FIXT", "FIXSL", "UNSUP", "BMM", "SPLIT", "TCONV"]
 
 
-def run_all_tensors(model, feeds, key):
+def run_all_tensors(model, feeds, key, refk=False):
   from ai_edge_litert import interpreter as tfl
   it = tfl.Interpreter(model_content=bytes(model), experimental_preserve_all_tensors=True,
-                       experimental_op_resolver_type=tfl.OpResolverType.BUILTIN_WITHOUT_DEFAULT_DELEGATES)
+                       experimental_op_resolver_type=tfl.OpResolverType.BUILTIN_REF if refk else tfl.OpResolverType.BUILTIN_WITHOUT_DEFAULT_DELEGATES)
   it.allocate_tensors()
   run = it.get_signature_runner(key)
   f2 = {}
@@ -90,6 +90,7 @@ def main():
   rng = np.random.default_rng(args.seed)
   tried = 0
   skipped_f15 = 0
+  nrefk = 0
   # stateful models (an RNN cell with its hidden state in a variable tensor, between dynamically quantised FULLY_CONNECTED ops)
   # validated on several inputs: "averaged over the test inputs" means every input is run from the initial state
   nstateful = 12 if args.tier == "quick" else 100
@@ -146,6 +147,9 @@ def main():
         skipped_f15 += 1
         continue
     inp, outp = project.project(model), project.project(qmodel)
+    # every third case is validated on the reference kernels (validate(..., use_reference_kernel=True))
+    refk = tried % 3 == 0
+    nrefk += refk
     for pair_kind, tgt_model, tgt_proj in (("quantized", qmodel, outp), ("self", model, inp)):
       mname = "mse" if (tried + (pair_kind == "self")) % 2 else "median_diff_ratio"
       test_data = {}
@@ -154,14 +158,14 @@ def main():
                                 for _ in range(nsamples)]
       try:
         if pair_kind == "quantized" and scn.get("stateful"):
-          res = qz.validate(test_data, error_metrics=mname)
+          res = qz.validate(test_data, error_metrics=mname, use_reference_kernel=refk)
         elif pair_kind == "quantized":
           q = quantizer.Quantizer(model)
           pipeline.apply_recipe(q, scn, info)
           q.quantize(impl.get("cal"))
-          res = q.validate(test_data, error_metrics=mname)
+          res = q.validate(test_data, error_metrics=mname, use_reference_kernel=refk)
         else:
-          res = model_validator.compare_model(model, model, test_data, mname, validation_utils.get_validation_func(mname))
+          res = model_validator.compare_model(model, model, test_data, mname, validation_utils.get_validation_func(mname), use_reference_kernel=refk)
       except Exception as e:  # pylint: disable=broad-except
         chk.violation("validate()/compare_model raised on %s pair: %s: %s" % (pair_kind, type(e).__name__, str(e)[:200]),
                       {"property": "C18", "scenario": scn, "codes": info["codes"], "pair": pair_kind, "metric": mname, "clause": "raises"})
@@ -200,8 +204,8 @@ def main():
         # own two interpreter runs
         acc = {}
         for feeds in test_data[sg["key"]]:
-          a = run_all_tensors(model, feeds, sg["key"])
-          b = run_all_tensors(tgt_model, feeds, sg["key"])
+          a = run_all_tensors(model, feeds, sg["key"], refk)
+          b = run_all_tensors(tgt_model, feeds, sg["key"], refk)
           for n in a:
             if n in b:
               acc.setdefault(n, []).append(metric(mname, b[n], a[n]))
@@ -221,7 +225,7 @@ def main():
                     "ins": [ref_names[t] for _, t in sg["ins"]], "outs": [ref_names[t] for _, t in sg["outs"]], "consts": consts,
                     "valok": valok, "iszero": iszero, "self": pair_kind == "self",
                     "stable": bool(stable), "savedok": bool(savedok), "flat": sorted(flat)})
-        meta.append(dict(scenario=scn, codes=info["codes"], pair=pair_kind, metric=mname, signature=sg["key"], names=names))
+        meta.append(dict(scenario=scn, codes=info["codes"], pair=pair_kind, metric=mname, reference_kernels=bool(refk), signature=sg["key"], names=names))
   # metric laws on integer vectors (non-negative, zero on equal arguments, MSE symmetric)
   nlaw = 0
   for k in range(200 if args.tier == "quick" else 5000):
@@ -257,10 +261,10 @@ def main():
       "states": r.distinct + ro.distinct, "transitions": r.generated + ro.generated, "traces_validated_against_impl": len(obs),
       "comparison_values_checked": sum(len(o["valok"]) for o in obs), "metric_law_vectors": nlaw,
       "evaluations": len(obs), "distinct_nontrivial": sum(1 for o in obs if not o["self"]),
-      "skipped_nondeterministic_kernel_F15": skipped_f15, "stateful_models": nstateful, "int64_bias_models": sum(1 for m in meta if m["scenario"].get("big64")) // 2,
+      "skipped_nondeterministic_kernel_F15": skipped_f15, "cases_on_reference_kernels": int(nrefk), "stateful_models": nstateful, "int64_bias_models": sum(1 for m in meta if m["scenario"].get("big64")) // 2,
       "rule": "random 2-5 operator scenarios (1-2 signatures) quantized under random per-op modes, plus stateful models (RNN cell with a variable "
               "state tensor between dynamically quantised FULLY_CONNECTED ops, 3 test inputs); each compared with its quantized version and "
-              "with itself, alternating mse / median_diff_ratio, 2 test inputs; non-trivial = quantized pair",
+              "with itself (every third case on the reference kernels), alternating mse / median_diff_ratio, 2 test inputs; non-trivial = quantized pair",
       "samples": [dict(pair=m["pair"], metric=m["metric"], groups={k: obs[i][k] for k in ("gin", "gout", "gconst", "ginter")}) for i, m in list(enumerate(meta))[:2]],
       "impl_wall_s": round(time.time() - t0, 1), "exhaustive": False,
   })
